@@ -1,2 +1,2 @@
--- stub: replaced by the family's driver
-def main : IO Unit := IO.println "family pool: no driver yet"
+import PrimitivModel.Driver.PoolDrv
+def main : IO Unit := Primitiv.Drv.PoolDrv.main
